@@ -11,6 +11,8 @@ from vlib import glist, gstr
 PRE = "From Coq Require Import List String.\nFrom Syc Require Import Async.Stream.\nImport ListNotations.\nOpen Scope string_scope.\n"
 
 # view = ("text", s) | ("el", tag, [views]) | ("sus", id, [views])      fallback text is "F<id>"
+#      | ("resv", gate, [views])  a Resource created outside every boundary, read here: nothing while loading, the views afterwards;
+#                                 for the boundary that reads it, it is a task (modelled as an async component)
 #      | ("trans", id, [views])    Transition: in the three SSR modes it must behave as a Suspense boundary (modelled as one)
 #      | ("async", gate, [views])
 
@@ -28,7 +30,7 @@ def sx(v):
         return "(%s ((text %s)) (%s))" % (v[0], hx("F%d" % v[1]), " ".join(sx(c) for c in v[2]))
     if v[0] == "dyn":
         return "(dyn (%s))" % " ".join(sx(c) for c in v[1])
-    return "(async %d (%s))" % (v[1], " ".join(sx(c) for c in v[2]))
+    return "(%s %d (%s))" % ("resv" if v[0] == "resv" else "async", v[1], " ".join(sx(c) for c in v[2]))
 
 
 def splice(vs):
@@ -61,7 +63,7 @@ def gates(v):
         return []
     if v[0] == "dyn":
         return [g for c in v[1] for g in gates(c)]
-    if v[0] == "async":
+    if v[0] in ("async", "resv"):
         return [v[1]] + [g for c in v[2] for g in gates(c)]
     return [g for c in v[2] for g in gates(c)]
 
@@ -106,6 +108,7 @@ def shapes():
     E = lambda t, *c: ("el", t, list(c))
     S = lambda i, *c: ("sus", i, list(c))
     R = lambda i, *c: ("trans", i, list(c))
+    V = lambda g, *c: ("resv", g, list(c))
     A = lambda g, *c: ("async", g, list(c))
     D = lambda *c: ("dyn", list(c))
     return [
@@ -139,6 +142,11 @@ def shapes():
         [D(S(1, A(1, T("a")))), S(2, A(2, T("b")))],
         [S(1, A(1, T("a"))), D(S(2, A(2, T("b"))), S(3, A(3, T("c"))))],
         [D(D(S(1, A(1, T("a")))), E("p", D(S(2, A(2, D(S(3, A(3, T("c")))))))))],
+        # a Resource created outside the boundary that reads it; the views it unlocks contain further async work
+        [S(1, V(1, T("a")))],
+        [S(1, V(1, A(2, T("c"))))],
+        [S(1, V(1, S(2, A(2, T("b")))), A(3, T("z")))],
+        [E("div", S(1, V(1, A(2, E("p", T("c")))), T("s")), S(2, V(3, T("r"))))],
         # Transition boundaries (a Suspense around a detached suspense scope): alone, around and inside ordinary boundaries
         [R(1, A(1, T("a")))],
         [R(1, A(1, T("x")), S(2, A(2, T("y"))))],
